@@ -61,14 +61,26 @@ def normalisation_chain(model: Model, token_type: str) -> Tuple[Optional[List[Tu
     arg = seen.get("arg")
     if not (isinstance(r, Opaque) and r.label == "decoded"):
         return None, f"the decoded text is post-processed into {describe(r)!r} instead of being returned as is"
-    chain: List[Tuple[str, str]] = []
+    chain: List[Tuple[Any, ...]] = []
     cur = arg
-    while isinstance(cur, Term) and cur.op == "strmeth" and cur.args[1] == "replace":
-        a = cur.args[2]
-        if len(a) != 2 or not all(isinstance(x, Const) and isinstance(x.value, str) for x in a):
-            return None, "replace() with non-constant arguments"
-        chain.append((a[0].value, a[1].value))
-        cur = cur.args[0]
+    while True:
+        if isinstance(cur, Term) and cur.op == "strmeth" and cur.args[1] == "replace":
+            a = cur.args[2]
+            if len(a) != 2 or not all(isinstance(x, Const) and isinstance(x.value, str) for x in a):
+                return None, "replace() with non-constant arguments"
+            chain.append((a[0].value, a[1].value))
+            cur = cur.args[0]
+            continue
+        # <regex literal>.sub(<constant>, text) / re.sub(<literal>, <constant>, text)
+        if isinstance(cur, Term) and cur.op == "call" and cur.args[1] == "sub" and isinstance(cur.args[0], Term) and cur.args[0].op == "re.compile":
+            pat = cur.args[0].args[0] if cur.args[0].args else None
+            a = cur.args[2]
+            if isinstance(pat, Const) and isinstance(pat.value, str) and len(cur.args[0].args) == 1 and len(a) == 2 and isinstance(a[0], Const) and isinstance(a[0].value, str) and not cur.args[3]:
+                chain.append(("re.sub", pat.value, a[0].value))
+                cur = a[1]
+                continue
+            return None, "regex substitution with non-constant pattern, replacement or flags"
+        break
     if cur is not value:
         return None, f"the literal is transformed by {describe(arg)!r}, not by a chain of str.replace calls"
     return chain[::-1], None
@@ -119,9 +131,9 @@ def check_normalisation(model: Model, report: Report, rule: str) -> None:
                 if want is None:
                     continue
                 n += 1
-                s = body
-                for old, new in chain:
-                    s = s.replace(old, new)  # model of str.replace: left-to-right, non-overlapping
+                from ._strmodel import apply_normalisation
+
+                s = apply_normalisation(chain, body)  # str.replace: left-to-right, non-overlapping; regex literals: stdlib re (A1)
                 got = rfc_decode(s, '"')
                 if got != want:
                     bad = (body, s, got, want)
